@@ -115,8 +115,16 @@ FAIL_POINTS = [("error.before", 1), ("error.after", 1), ("run.save.before", 1), 
                ("save.job.before", 2), ("run.save.after", 1), ("run.unlinked", 1), ("run.cwd_restored", 1)]  # fmt: skip
 
 
+# hook points of Job.run as of the pinned tree: used only when the extractor cannot read the source any more
+DEFAULT_POINTS = [("run.lock_acquired", 1), ("run.will_execute", 1), ("save.job.before", 1), ("save.job.after", 1),
+                  ("run.populated", 1), ("run.body.before", 1), ("run.body.after", 1), ("run.outputs_collected", 1),
+                  ("run.save.before", 1), ("save.result.before", 1), ("save.result.after", 1), ("save.job.before", 2),
+                  ("save.job.after", 2), ("run.save.after", 1), ("run.unlinked", 1), ("run.cwd_restored", 1),
+                  ("run.lock_released", 1)]  # fmt: skip
+
+
 def crash_cases(ctx, sk, big: bool) -> list[dict]:
-    pts = static_points(sk["run"])
+    pts = static_points(sk["run"]) if sk is not None else list(DEFAULT_POINTS)
     pts = [p for p in pts if not p[0].startswith("error.")]
     cases = []
     for point, occ in pts:
@@ -219,7 +227,7 @@ def run_crash_cases(ctx, zy, cases: list[dict], result_size: int) -> list[dict]:
                     "hang": b["hang"],
                     "outcome": (b["report"] or {}).get("outcome"),
                     "outputs": (b["report"] or {}).get("outputs"),
-                    "msg": (b["report"] or {}).get("msg", "")[:200],
+                    "msg": ((b["report"] or {}).get("msg") or "")[-300:],
                     **o2,
                 },
             }
@@ -356,36 +364,61 @@ def judge_cases(ctx, cases, observed, answers, positions_ok: bool):
 
 
 def run_all(ctx, cases_py: list[dict], cases_other: list[dict], n_lengths):
+    import time
+
     core.assert_repo_loaded()
-    sk = job_skeleton.skeletons()
-    positions = py_positions(sk["run"])
+    ph = ctx.extra.setdefault("phase_s", {})
+    t0 = time.time()
+    ph["build+audit"] = round(t0 - ctx.t0, 1)
+    sk = jp.safe_skeletons(ctx)
+    positions = py_positions(sk["run"]) if sk is not None else None
     size = truncation_device(ctx, n_lengths)
+    ph["truncation"] = round(time.time() - t0, 1)
+    t0 = time.time()
     zy = jp.Zygote(ctx.scratch)
+    ph["zygote-start"] = round(time.time() - t0, 1)
     try:
+        t0 = time.time()
         bad = jp.validate_skeleton(ctx, zy, positions)
+        ph["skeleton-validation"] = round(time.time() - t0, 1)
+        t0 = time.time()
         observed = run_crash_cases(ctx, zy, cases_py + cases_other, size)
+        ph["crash-cases"] = round(time.time() - t0, 1)
     finally:
         zy.close()
-    queries = [{"op": "positions", "prog": "run"}] + [history_query(c, positions) for c in cases_py]
-    ans = ctx.driver("JobProto", queries)
+    t0 = time.time()
+    ans = None
+    if positions is not None:
+        queries = [{"op": "positions", "prog": "run"}] + [history_query(c, positions) for c in cases_py]
+        ans = ctx.driver("JobProto", queries)
     answers = None
     if ans is not None:
         if ans[0].get("acts") != positions["acts"] or ans[0].get("vp") != positions["vp"]:
             ctx.tie_broken.append({"kind": "positions-mirror", "detail": "python mirror of Prog.flatten differs from the driver"})
         answers = ans[1:] + [None] * len(cases_other)
+    ph["driver"] = round(time.time() - t0, 1)
     judge_cases(ctx, cases_py + cases_other, observed, answers, True)
     return bad
 
 
+def _corpus(name: str) -> list[dict]:
+    import json
+
+    p = core.VERIF / "corpus" / "jobproto" / f"{name}.jsonl"
+    return [json.loads(line)["case"] for line in p.read_text().splitlines() if line.strip()]
+
+
 def correspondence(ctx):
-    sk = job_skeleton.skeletons()
-    cases_py = crash_cases(ctx, sk, big=not ctx.quick)
+    sk = jp.safe_skeletons(ctx)
+    gen = crash_cases(ctx, sk, big=not ctx.quick)
+    corpus = _corpus("c12_crash")  # corpus first
+    cases_py = corpus + [c for c in gen if c not in corpus]
     cases_other = other_task_cases(ctx, big=not ctx.quick)
     run_all(ctx, cases_py, cases_other, ctx.pick(64, None))
 
 
 def search(ctx):
-    sk = job_skeleton.skeletons()
+    sk = jp.safe_skeletons(ctx)
     run_all(ctx, crash_cases(ctx, sk, big=True), other_task_cases(ctx, big=True), ctx.pick(256, None))
 
 
